@@ -176,6 +176,10 @@ func (s *sym) stmt(st ast.Stmt) {
 		if s.ctl == "break" {
 			s.ctl = ""
 			s.effects = append(s.effects, "leave-loop")
+		} else if s.ctl == "return" {
+			// a return inside the loop leaves the loop too (and skips whatever follows the loop: ctl stays "return", so
+			// effects after the loop, if any, still tell `return` and `break` apart)
+			s.effects = append(s.effects, "leave-loop")
 		} else if s.ctl == "" || s.ctl == "continue" {
 			s.ctl = ""
 			s.effects = append(s.effects, "next-iteration")
@@ -321,7 +325,8 @@ func (f *facts) flowTables(conn, tr *ast.File) string {
 			switch x := n.(type) {
 			case *ast.CallExpr:
 				for suf, name := range map[string]string{".rlock.Lock": "lock", ".rlock.Unlock": "unlock", ".conn.Close": "close", ".abortRead": "close",
-					".skipResponseSizeAndID": "skip", ".leave": "leave", ".peekResponseSizeAndID": "peek"} {
+					".skipResponseSizeAndID": "skip", ".leave": "leave", ".peekResponseSizeAndID": "peek",
+					".setConnReadDeadline": "attach", ".unsetConnReadDeadline": "detach"} {
 					if _, ok := callEnds(x, suf); ok {
 						return name
 					}
@@ -388,6 +393,8 @@ func (f *facts) flowTables(conn, tr *ast.File) string {
 				return "read"
 			case isConnClose(p):
 				return "close"
+			case strings.HasSuffix(p, ".unsetConnReadDeadline"):
+				return "detach"
 			case p == lockVar+".Unlock":
 				return "unlock"
 			}
@@ -811,6 +818,8 @@ func (f *facts) flowTables(conn, tr *ast.File) string {
 				case strings.HasSuffix(p, ".waitResponse"):
 					last = "waitResponse"
 					return "waitResponse"
+				case strings.HasSuffix(p, ".unsetConnReadDeadline"):
+					return "detach"
 				case isConnClose(p):
 					return "close"
 				}
@@ -937,6 +946,7 @@ func (f *facts) flowTables(conn, tr *ast.File) string {
 		emit("apiVersionsFlow", rows, unk)
 	}
 	if fd := findFunc(conn, "Conn", "ReadBatchWith"); fd != nil {
+		hdrFwd := f.forwarders(conn, func(n string) bool { return strings.HasPrefix(n, "readFetchResponseHeaderV") })
 		last = ""
 		classify := errAfter(map[string]string{"seek": "seekFailed", "negotiate": "negotiateFailed", "doRequest": "requestFailed",
 			"waitResponse": "waitFailed", "header": "headerFailed", "drain": "headerFailed", "newReader": "firstHeaderFailed"}, func(e ast.Expr) string {
@@ -965,7 +975,7 @@ func (f *facts) flowTables(conn, tr *ast.File) string {
 			case strings.HasSuffix(p, ".negotiateVersion"):
 				last = "negotiate"
 				return "negotiate"
-			case strings.HasPrefix(p, "readFetchResponseHeaderV"):
+			case strings.HasPrefix(p, "readFetchResponseHeaderV") || hdrFwd[lastName(p)]:
 				last = "header"
 				return "readHeader"
 			case p == "discardOnKafkaError":
@@ -987,6 +997,17 @@ func (f *facts) flowTables(conn, tr *ast.File) string {
 
 	// (*Batch).close: what is discarded, when the conn is closed, that the lock is released
 	if fd := findFunc(f.files["batch.go"], "Batch", "close"); fd != nil {
+		discardVar := ""
+		ast.Inspect(fd.Body, func(n ast.Node) bool {
+			if as, ok := n.(*ast.AssignStmt); ok && len(as.Lhs) == 1 && len(as.Rhs) == 1 {
+				if c, ok := as.Rhs[0].(*ast.CallExpr); ok && strings.HasSuffix(selPath(c.Fun), ".msgs.discard") {
+					if id, ok := as.Lhs[0].(*ast.Ident); ok {
+						discardVar = id.Name
+					}
+				}
+			}
+			return true
+		})
 		classify := func(e ast.Expr) string {
 			t := src(f.fset, e)
 			switch {
@@ -1002,6 +1023,12 @@ func (f *facts) flowTables(conn, tr *ast.File) string {
 				return "hasLock"
 			case t == "err != nil":
 				return "errLeft"
+			}
+			// the result of msgs.discard(), kept in a local: `<local> != nil`
+			if bx, ok := e.(*ast.BinaryExpr); ok && bx.Op == token.NEQ && src(f.fset, bx.Y) == "nil" {
+				if id, ok := bx.X.(*ast.Ident); ok && discardVar != "" && id.Name == discardVar {
+					return "discardFailed"
+				}
 			}
 			if c, ok := e.(*ast.CallExpr); ok {
 				switch selPath(c.Fun) {
@@ -1031,6 +1058,8 @@ func (f *facts) flowTables(conn, tr *ast.File) string {
 				return "closeConn"
 			case strings.HasSuffix(p, "lock.Unlock"):
 				return "unlock"
+			case strings.HasSuffix(p, ".unsetConnReadDeadline"):
+				return "detach"
 			}
 			return ""
 		}
@@ -1038,10 +1067,16 @@ func (f *facts) flowTables(conn, tr *ast.File) string {
 		var scens []map[string]bool
 		for _, hm := range []bool{true, false} {
 			for _, cls := range []string{"nil", "eof", "kafka", "short", "other"} {
-				names = append(names, []string{fmt.Sprintf("hasMsgs=%v", hm), "err=" + cls})
-				scens = append(scens, map[string]bool{"hasMsgs": hm, "hasDecompressed": false, "connSet": true, "hasLock": true,
-					"batchErrNil": cls == "nil", "isEOF": cls == "eof", "errLeft": cls == "kafka" || cls == "short" || cls == "other",
-					"isKafkaError": cls == "kafka", "isShortBuffer": cls == "short"})
+				for _, df := range []bool{false, true} {
+					if df && !hm {
+						continue // nothing to discard
+					}
+					// a failed discard replaces the error Close goes by (never a kafka.Error, never io.ErrShortBuffer)
+					names = append(names, []string{fmt.Sprintf("hasMsgs=%v", hm), "err=" + cls, fmt.Sprintf("discardFailed=%v", df)})
+					scens = append(scens, map[string]bool{"hasMsgs": hm, "hasDecompressed": false, "connSet": true, "hasLock": true, "discardFailed": df,
+						"batchErrNil": cls == "nil", "isEOF": cls == "eof", "errLeft": df || cls == "kafka" || cls == "short" || cls == "other",
+						"isKafkaError": !df && cls == "kafka", "isShortBuffer": !df && cls == "short"})
+				}
 			}
 		}
 		rows, unk := f.runScenarioList(fd, names, scens, classify, effect)
